@@ -1,3 +1,3 @@
 From Coq Require Import Extraction ExtrOcamlBasic.
-From MTV Require Import Misc.RpcError Misc.Migrate.
-Extraction "model.ml" to_native handle process_err sprintf1 dec atoi cstep dc_lookup Migrate.step Migrate.init Migrate.labels.
+From MTV Require Import Misc.RpcError Misc.Migrate Misc.DcConfig.
+Extraction "model.ml" to_native handle process_err sprintf1 dec atoi cstep dc_lookup Migrate.step Migrate.init Migrate.labels config_table.
